@@ -34,6 +34,7 @@ class Anchors:
         self.role = {}        # fn path -> role
         self.by_role = {}     # role -> fn path (first)
         self.handle_unwind = None
+        self.handle_unwinds = []
         self.flag_adt = None
         self.flag_fn = {}     # 'read'|'set'|'clear' -> fn path
         self.keycell = None
@@ -62,10 +63,8 @@ class Anchors:
             for g, t in self._calls(f):
                 if t["callee"]["def"] == "std::panic::catch_unwind":
                     hu.add(f["path"])
-        if len(hu) == 1:
-            self.handle_unwind = next(iter(hu))
-        elif hu:
-            self.notes.append("catch_unwind is called from several functions: %s" % sorted(hu))
+        self.handle_unwinds = sorted(hu)      # each of them is held to the catch -> handler -> resume protocol (G1)
+        if hu:
             self.handle_unwind = sorted(hu)[0]
         # flag ADT and key cell
         for a in F.adts.values():
